@@ -9,13 +9,13 @@ import OpcuaModel.Model.CfgAliasFacts
 
   `Isolated F prog`: after any sequence of client constructions, every client
   reads at every configuration path what it would read had it been the only
-  client ever built.  With today's facts this is FALSE: `DefaultDialer()` stores
-  the package-level `uacp.DefaultClientACK` pointer and four options assign
-  through it (finding C23.shared-default-client-ack).  Proved: isolation for
-  every program in which no option assigns a package-level cell (dynamic guard),
-  for every program built from the other 30 options (static guard on the
-  generated footprints), for every program if the defaults were private; the
-  two counterexamples; and that the culprits are exactly the four options.
+  client ever built.  Since the repair of `DefaultDialer()` (it copies
+  `*uacp.DefaultClientACK` instead of storing the pointer; finding
+  C23.shared-default-client-ack, fixed) the regenerated alias facts are empty
+  and the property is proved at FULL strength: `C23_isolation`, for every
+  program, no guard.  The general theorems (any alias facts, dynamic and static
+  guard) are kept: they say what must hold should a shared default reappear,
+  and `C23_model_detects_sharing` shows that the model is not blind to one.
 -/
 namespace Opcua.Props.C23
 open Opcua Opcua.CfgAlias
@@ -90,14 +90,23 @@ theorem C23_isolation_by_option_names_partial (F : Facts) (opts : Footprints) (p
     subst hk
     exact uses_no_global F opts k uses (h uses (List.mem_of_getElem? hu)) [] c hc
 
-/-- which options of the current config.go assign through a shared object, and
-    which replace one: decided on the generated facts and footprints (all 35
-    options enumerated) -/
-theorem C23_shared_writers_today :
-    sharedWriters facts Gen.Config.options = ["MaxChunkCount", "MaxMessageSize", "ReceiveBufferSize", "SendBufferSize"] ∧
-    sharedReplacers facts Gen.Config.options = ["Dialer"] ∧
+/-- the alias facts of the current source: the default constructors share
+    NOTHING between clients (evaluation of newConfig() twice + go/ast), so no
+    option's footprint can lie inside or replace a shared object; all 35 options
+    of config.go are enumerated -/
+theorem C23_defaults_private :
+    Gen.Config.shared = [] ∧
+    sharedWriters facts Gen.Config.options = [] ∧
+    sharedReplacers facts Gen.Config.options = [] ∧
     Gen.Config.options.length = 35 := by
   decide +kernel
+
+/-- ISOLATION, full strength, for the current source: every program — any
+    number of clients, any options in any order with any values, caller-supplied
+    objects — leaves every client reading, at every configuration path, exactly
+    what its own options give on pristine defaults -/
+theorem C23_isolation (prog : List (List Step)) : Isolated facts prog :=
+  isolated_of_noGlobalWrite facts prog (noGlobalWrite_of_no_shared facts C23_defaults_private.1 prog)
 
 theorem resolve_redirected (F : Facts) (k : Nat) (r : Redir) (p : Path)
     (h : ∃ e ∈ r, strictPrefix e.1 p = true) : isGlob (resolve F k r p).1 = false := by
@@ -136,7 +145,7 @@ theorem C23_dialer_option_is_private (F : Facts) (k u : Nat) (ws : List Step)
   simp only [cellsWritten] at hc
   exact key ws _ hws List.mem_cons_self c hc
 
-/-! ### the finding -/
+/-! ### the former finding (C23.shared-default-client-ack, fixed) as a regression -/
 
 def pMaxMessageSize : Path := ["dialer", "ClientACK", "MaxMessageSize"]
 def pReceiveBufSize : Path := ["dialer", "ClientACK", "ReceiveBufSize"]
@@ -147,41 +156,35 @@ def witness₁ : List (List Step) := [[.write pMaxMessageSize "1234", .write pRe
 /-- `NewClient(url)`, then `NewClient(url, MaxMessageSize(7))` -/
 def witness₂ : List (List Step) := [[], [.write pMaxMessageSize "7"]]
 
-/-- finding C23.shared-default-client-ack (a): the client created LATER, without
-    options, reads the first client's values where the pristine defaults say 0 / 65535 -/
-theorem C23_finding_later_client_inherits :
-    effective facts pristine (runClients facts 0 emptyHeap witness₁) 1 [] pMaxMessageSize = "1234" ∧
-    effective facts pristine (runClients facts 0 emptyHeap witness₁) 1 [] pReceiveBufSize = "9999" ∧
-    effective facts pristine (runSteps facts 1 emptyHeap [] []).1 1 [] pMaxMessageSize = "0" ∧
-    effective facts pristine (runSteps facts 1 emptyHeap [] []).1 1 [] pReceiveBufSize = "65535" := by
+/-- the witnesses of the repaired defect: the later client now reads the pristine
+    defaults, the existing client keeps its configuration, the configured client its own values -/
+theorem C23_former_witnesses_isolated :
+    effective facts pristine (runClients facts 0 emptyHeap witness₁) 1 [] pMaxMessageSize = "0" ∧
+    effective facts pristine (runClients facts 0 emptyHeap witness₁) 1 [] pReceiveBufSize = "65535" ∧
+    effective facts pristine (runClients facts 0 emptyHeap witness₁) 0 (witness₁.getD 0 []) pMaxMessageSize = "1234" ∧
+    effective facts pristine (runClients facts 0 emptyHeap witness₂) 0 [] pMaxMessageSize = "0" := by
   decide +kernel
 
-/-- (b): the configuration of an EXISTING client changes when another client is configured -/
-theorem C23_finding_existing_client_changed :
-    effective facts pristine (runClients facts 0 emptyHeap witness₂) 0 [] pMaxMessageSize = "7" ∧
-    effective facts pristine (runSteps facts 0 emptyHeap [] []).1 0 [] pMaxMessageSize = "0" := by
-  decide +kernel
+/-- the facts as they were before the repair -/
+def factsBeforeRepair : Facts := ⟨[(["dialer", "ClientACK"], "uacp.DefaultClientACK")]⟩
 
-/-- hence the property is false for the current source -/
-theorem C23_finding_not_isolated : ¬ Isolated facts witness₁ ∧ ¬ Isolated facts witness₂ := by
-  constructor
+/-- the model is not blind: under the facts of the unrepaired source the same
+    programs are NOT isolated (so `Isolated` is not vacuously true, and a shared
+    default reappearing in the regenerated facts breaks `C23_defaults_private`) -/
+theorem C23_model_detects_sharing :
+    ¬ Isolated factsBeforeRepair witness₁ ∧ ¬ Isolated factsBeforeRepair witness₂ ∧
+    ¬ NoGlobalWrite factsBeforeRepair witness₁ := by
+  refine ⟨?_, ?_, ?_⟩
   · intro h
-    have h1 := h pristine 1 [] (by decide) pMaxMessageSize
-    have h2 := C23_finding_later_client_inherits
-    rw [h2.1, h2.2.2.1] at h1
-    exact absurd h1 (by decide)
+    have h1 := h (fun _ => "0") 1 [] (by decide) pMaxMessageSize
+    revert h1; decide +kernel
   · intro h
-    have h1 := h pristine 0 [] (by decide) pMaxMessageSize
-    have h2 := C23_finding_existing_client_changed
-    rw [h2.1, h2.2] at h1
-    exact absurd h1 (by decide)
-
-/-- … and the witnesses are outside the guard of the partial theorem, as they must be -/
-theorem C23_witness_violates_guard : ¬ NoGlobalWrite facts witness₁ := by
-  intro h
-  have := h 0 _ rfl (resolve facts 0 [] pMaxMessageSize) (by simp [cellsWritten])
-  revert this
-  decide +kernel
+    have h1 := h (fun _ => "0") 0 [] (by decide) pMaxMessageSize
+    revert h1; decide +kernel
+  · intro h
+    have := h 0 _ rfl (resolve factsBeforeRepair 0 [] pMaxMessageSize) (by simp [cellsWritten])
+    revert this
+    decide +kernel
 
 /-! ### non-vacuity: a program the partial theorem covers -/
 
